@@ -117,7 +117,7 @@ def env_case(draw):
             "select": select,
             "share_env": draw(st.sampled_from([True, True, False])), "rotate": draw(st.integers(0, 8)),
             "preselect": draw(st.sampled_from([None, None, "query", "tags"])),
-            "other_option_first": draw(st.integers(0, 2)) == 0,
+            "other_option_first": draw(st.integers(0, 2)) == 0, "two_tags": draw(st.integers(0, 2)) == 0,
             "backends": draw(st.sampled_from([BACKENDS, BACKENDS, ["dip", "json", "yaml", "toml", "bash"], ["c", "cpp", "fortran", "rust"]]))}
 
 
@@ -159,7 +159,7 @@ def dip_text(case):
         dim = "[" + ",".join(str(s) for s in p["shape"]) + "]" if p["shape"] else ""
         L.append(f"{name} {p['type']}{dim} = {dip_literal(p)}" + (f" {p['unit']}" if p["unit"] else ""))
         if p["tag"]:
-            L.append('  !tags ["selection"]')
+            L.append('  !tags ["selection","extra"]' if case.get("two_tags") else '  !tags ["selection"]')
     return "\n".join(L)
 
 
@@ -177,6 +177,11 @@ def selected(case):
             return [dict(p, path=p["path"][1:]) for p in ps if len(p["path"]) >= 2 and p["path"][0] == first[0]]
         return [ps[0]]
     return list(ps)
+
+
+def TAGS(case):
+    # several tag selectors: every tagged node of the case carries both, so "any of them" and "all of them" agree
+    return ["selection", "extra"] if case.get("two_tags") else ["selection"]
 
 
 def query_of(case):
@@ -704,15 +709,15 @@ def do_export(backend, env, case, ps_all):
         # an earlier selection on the same exporter object must not narrow the one that counts
         pre = case.get("preselect")
         if pre == "tags" and case["select"] != "tags":
-            exp.select(tags=["selection"])
+            exp.select(tags=TAGS(case))
         elif pre == "query" and case["select"] != "query":
             exp.select(query=query_of(case))
         if case["select"] == "tags":
-            exp.select(tags=["selection"])
+            exp.select(tags=TAGS(case))
         elif case["select"] == "query":
             exp.select(query=query_of(case))
         elif case["select"] == "both":
-            exp.select(query=query_of(case), tags=["selection"])
+            exp.select(query=query_of(case), tags=TAGS(case))
         elif pre:
             exp.select()
         if backend in ("json", "yaml", "toml"):
@@ -863,6 +868,8 @@ def check(case):
             "select_" + str(case["select"]))
     if case.get("other_option_first"):
         v.label("parse_called_with_the_other_units_option_first")
+    if case.get("two_tags") and (case["select"] in ("tags", "both") or case.get("preselect") == "tags"):
+        v.label("selection_by_two_tags")
     if case.get("preselect") and case.get("preselect") != case["select"]:
         v.label("selected_twice")
     return v
